@@ -97,7 +97,14 @@ def main():
     try:
         for c in checks:
             t0 = time.time()
-            rc, out = sh("VERIF_REPO=%s ./check %s --tier quick" % (target, c), cwd=ROOT, timeout=3600)
+            # the evidence file describes runs on /repo itself: keep it out of the way of this run
+            ev = os.path.join(ROOT, "evidence", c + ".json")
+            keep = open(ev).read() if os.path.exists(ev) else None
+            try:
+                rc, out = sh("VERIF_REPO=%s ./check %s --tier quick" % (target, c), cwd=ROOT, timeout=3600)
+            finally:
+                if keep is not None:
+                    open(ev, "w").write(keep)
             viol = [l for l in out.splitlines() if l.startswith("VIOLATION")]
             results[c] = {"exit": rc, "caught": rc == 1 and bool(viol), "violation_lines": viol[:3],
                           "first_detail": next((l.strip()[:300] for l in out.splitlines() if l.strip().startswith("->")), ""),
